@@ -3,6 +3,7 @@ package rules
 import (
 	"go/ast"
 	"go/token"
+	"go/types"
 	"reflect"
 	"strings"
 
@@ -415,5 +416,65 @@ func r17RuneLengthsInBytes(c *cx, id string) int {
 			return true
 		})
 	}
+	return n
+}
+
+// r17NoHiddenGlobalState (C13.39 / C19.51): the codecs of the library are
+// functions of their arguments: no function of the module stores into a
+// package-level variable (directly, through a field or element of it, or by
+// calling Store / Put / LoadOrStore on a package-level sync value). What is
+// stored there by one call is read by the next - on any session, in any
+// goroutine: an address cache keyed by a case-folded string hands the second
+// stanza the first one's address; a pool hands out a buffer that is still
+// being read. Package-level tables are initialised where they are declared.
+func r17NoHiddenGlobalState(c *cx, id string) int {
+	n := 0
+	global := func(f *eng.Fn, e ast.Expr) string {
+		for {
+			switch x := ast.Unparen(e).(type) {
+			case *ast.SelectorExpr:
+				if v, ok := f.Info().Uses[x.Sel].(*types.Var); ok && !v.IsField() && !eng.IsLocal(v) && v.Pkg() != nil && strings.HasPrefix(v.Pkg().Path(), eng.ModPath) {
+					return v.Pkg().Name() + "." + v.Name()
+				}
+				e = x.X
+			case *ast.IndexExpr:
+				e = x.X
+			case *ast.StarExpr:
+				e = x.X
+			case *ast.Ident:
+				if v, ok := f.Info().Uses[x].(*types.Var); ok && !eng.IsLocal(v) && !v.IsField() && v.Pkg() != nil && strings.HasPrefix(v.Pkg().Path(), eng.ModPath) {
+					return v.Pkg().Name() + "." + v.Name()
+				}
+				return ""
+			default:
+				return ""
+			}
+		}
+	}
+	for _, f := range c.allFns() {
+		n++
+		bad := ""
+		for _, w := range f.Writes() {
+			if gname := global(f, w.LHS); gname != "" {
+				bad = "stores into " + gname + " at " + f.Prog.Pos(w.Stmt.Pos())
+			}
+		}
+		for _, cl := range f.AllCalls() {
+			sel, ok := ast.Unparen(cl.Fun).(*ast.SelectorExpr)
+			if !ok {
+				continue
+			}
+			switch sel.Sel.Name {
+			case "Store", "Put", "LoadOrStore", "Swap", "CompareAndSwap", "Delete":
+				if gname := global(f, sel.X); gname != "" && strings.HasPrefix(f.CalleeID(cl), "sync.") {
+					bad = "calls " + f.CalleeID(cl) + " on " + gname + " at " + f.Prog.Pos(cl.Pos())
+				}
+			}
+		}
+		if bad != "" {
+			c.r.Check(id, f, "package-level state", "W: no function of the module writes package-level state", f.Pos(), false, f.Short+" "+bad+": what one call leaves there changes the result of another")
+		}
+	}
+	c.r.Check(id, nil, "functions scanned for stores into package-level variables", "W: no function of the module writes package-level state", token.NoPos, true, "")
 	return n
 }
